@@ -39,6 +39,7 @@ class Engine:
         self.log = []
         self.pending = []
         self.cache = {}
+        self.rawcache = {}
         self.model = None
         self.fresh = 0
         self.max_decisions = max_decisions
@@ -117,6 +118,16 @@ class Engine:
         return r
 
     def _branch(self, cond, hint=None):
+        raw = cond
+        hit = self.rawcache.get(raw.get_id())
+        if hit is not None:
+            self.stats["cache_hits"] += 1
+            return hit[0]
+        r = self._branch2(cond, hint)
+        self.rawcache[raw.get_id()] = (r, raw)        # keeps `raw` alive, so its id cannot be reused
+        return r
+
+    def _branch2(self, cond, hint=None):
         cond = z3.simplify(cond)
         if z3.is_true(cond):
             return True
@@ -237,6 +248,7 @@ class Engine:
                 break
             self.prefix = self.pending.pop()
             self.log, self.cache, self.model = [], {}, None
+            self.rawcache = {}
             self.lin = LinStore()
             self.free_count = 0
             self.solver.push()
